@@ -130,15 +130,15 @@ Lemma inv_dom_nested ct rec st nm len1 :
 Proof.
   intros HR I. unfold dom_nested.
   destruct len1 as [l|], (starred nm).
-  - destruct (Z.eqb l 0); [exact I|].
+  - 
     destruct (rec st (cname_of nm) None) as [s1 r] eqn:E1.
     pose proof (HR st (cname_of nm) None I) as [I1 _]. rewrite E1 in I1. cbn in I1.
     destruct r as [o b|k e]; fin_inv.
-  - destruct (Z.eqb l 0); [exact I|].
+  - 
     destruct (rec st (cname_of nm) None) as [s1 r] eqn:E1.
     pose proof (HR st (cname_of nm) None I) as [I1 _]. rewrite E1 in I1. cbn in I1.
     destruct r as [o b|k e]; [|fin_inv].
-    destruct (obj_len (heap s1) o); [|fin_inv].
+    destruct (obj_length (heap s1) o); [|fin_inv].
     destruct (rec (collect s1) (cname_of nm) (Some l)) as [s2 r2] eqn:E2.
     pose proof (HR (collect s1) (cname_of nm) (Some l) (inv_collect _ _ I1)) as [I2 _].
     rewrite E2 in I2. cbn in I2. fin_inv.
